@@ -239,9 +239,9 @@ func runC01(c *Ctx) {
 		// key generator: windows of width K of the shortcut, complete
 		if ta != nil {
 			var keygen *ssa.Function
-			eachInstr(ta, func(_ *ssa.BasicBlock, in ssa.Instruction) {
+			eachInstrG(c.P, ta, func(_ *ssa.BasicBlock, in ssa.Instruction) {
 				if ci, ok := in.(ssa.CallInstruction); ok {
-					if cal := ci.Common().StaticCallee(); cal != nil && c.P.IsLibFunc(cal) && cal.Signature.Results().Len() == 1 && typeStr(cal.Signature.Results().At(0).Type()) == "[]string" {
+					if cal := ci.Common().StaticCallee(); cal != nil && c.P.IsLibFunc(cal) && !c.P.IsNewHelper(cal) && cal.Signature.Results().Len() == 1 && typeStr(cal.Signature.Results().At(0).Type()) == "[]string" {
 						keygen = cal
 					}
 				}
